@@ -70,6 +70,7 @@ def ops_c16(tr):
         elif k == 6:
             t += RMAX + 10
             op = {"a": "purge_recycled"}
+        elif k == 8: op = {"a": "set_members", "g": f"e{a}", "xs": setcode(b)}
         else: op = {"a": "set_desc", "id": "e4", "d": "zz"}
         op["t"] = t
         ops.append(op)
